@@ -135,6 +135,13 @@ def _configs(tier, thick=False):
     # ... and the very same call twice, with the window given in another unit than the positions
     out.append(dict(kind="wiring", d="z", nx=2, ny=1, ncell=1, win=1.0, unit="au", origin=True, layer="scalar", nanpat="none",
                     thick=thick, op="sum", nz=None, dzrange=("le" if thick else None), warm="same"))
+    # the layer's unit contains a length unit that is not the positions' unit (g/m**3, km/s over positions in cm): the depth
+    # step is a length in the positions' unit and the factor between the two must not be lost
+    if thick:
+        for ru in ("g/m**3", "km/s"):
+            for op in ("sum", "nansum", "mean"):
+                out.append(dict(kind="wiring", d="z", nx=2, ny=1, ncell=1, win=1.0, unit="cm", origin=True, layer="scalar", nanpat="none",
+                                thick=True, op=op, nz=None, dzrange="le", rho_unit=ru))
     if tier != "quick" and not thick:
         out.append(dict(kind="wiring", d="v236", nx=1, ny=1, ncell=1, win=1.0, unit="cm", origin=True, layer="scalar", nanpat="none",
                         thick=False, op="sum"))
@@ -207,7 +214,7 @@ def basis_of(m, d, ndim):
     return AXES[d]
 
 
-def _cells(m, ncell, ndim):
+def _cells(m, ncell, ndim, rho_unit="g/cm**3"):
     from osyris import Array, Vector, Datagroup
     cen = [m.array("c" + k, (ncell,), "float64") for k in "xyz"[:ndim]]
     size = m.array("s", (ncell,), "float64")
@@ -219,7 +226,7 @@ def _cells(m, ncell, ndim):
     dg = Datagroup()
     dg["position"] = Vector(*cen, unit="cm")
     dg["dx"] = Array(size, unit="cm")
-    dg["density"] = Array(rho, unit="g/cm**3")
+    dg["density"] = Array(rho, unit=rho_unit)
     dg["velocity"] = Vector(*vel, unit="cm/s")
     C_ = [[m.t(t) for t in m.vals(c)] for c in cen]
     S_ = [m.t(t) for t in m.vals(size)]
@@ -327,8 +334,8 @@ def _wiring(m, cfg):
     op = cfg.get("op", "sum")
     ndim = 2 if d == "2d" else 3
     tag = f"{'thick' if thick else 'thin'}:{d}:{nx}x{ny}:c{ncell}:{layer}" + (f":{op}" if thick else "") + (":second-call" if cfg.get("warm") else "") + \
-          (f":dy={cfg['dyf']}dx" if cfg.get("dyf") else "")
-    dg, C_, S_, RHO, W_ = _cells(m, ncell, ndim)
+          (f":dy={cfg['dyf']}dx" if cfg.get("dyf") else "") + (f":layer-unit={cfg['rho_unit']}" if cfg.get("rho_unit") else "")
+    dg, C_, S_, RHO, W_ = _cells(m, ncell, ndim, cfg.get("rho_unit", "g/cm**3"))
     o = [m.real("o" + k, lo=-BIG, hi=BIG) for k in "xyz"[:ndim]] if cfg["origin"] else None
     O = [m.t(x) for x in o] if o else [m.t(0.0)] * ndim
     kw = _map_args(m, cfg, ndim, dg, o)
@@ -573,7 +580,8 @@ def _wiring(m, cfg):
     m.check("the result holds, per pixel, the kernel output reduced along the depth" + (" (sum times the depth step)" if thick else ""),
             m.And(fs), key=f"assembly-value:{tag}", prefer=vis)
     unit = str(p.layers[0]["unit"])
-    base_unit = "centimeter / second" if layer == "vector" else "gram / centimeter ** 3"
+    base_unit = "centimeter / second" if layer == "vector" else {"g/cm**3": "gram / centimeter ** 3", "g/m**3": "gram / meter ** 3",
+                                                                  "km/s": "kilometer / second"}[cfg.get("rho_unit", "g/cm**3")]
     if thick and op in ("sum", "nansum"):
         want_dim = C.fd(base_unit)[1]
         want_dim = tuple(a + b for a, b in zip(want_dim, (1, 0, 0, 0, 0)))
@@ -658,6 +666,14 @@ def _end_to_end_one(m, cfg, nx, ny, lay, kw, C_, S_, RHO, W_, O, Wcm, fu, point,
             zs = [-0.5 * dz + zstep * (k + 0.5) for k in range(nz)]
         else:
             zs, zstep = [0.0], None
+        # the unit: the layer's unit, times the positions' length unit for a sum over depth (compared as physical factor + dimension)
+        base_u = "cm/s" if cfg["layer"] == "vector" else cfg.get("rho_unit", "g/cm**3")
+        bf, bd = C.fd(base_u)
+        if thick and op in ("sum", "nansum"):
+            bf, bd = bf * C.fd("cm")[0], tuple(a + b for a, b in zip(bd, (1, 0, 0, 0, 0)))
+        gf = C.fd(p.layers[0]["unit"])[0]
+        if not C.unit_dim_ok(p.layers[0]["unit"], bd) or abs(gf / bf - 1) > 1e-9:
+            bad.append(f"unit {p.layers[0]['unit']} of the {op if thick else 'thin'} map of a layer in {base_u} over positions in cm")
         px, py = m.vals(p.x), m.vals(p.y)
         if len(px) != nx or not all(m.close(a * fu, b, scale=Wcm) for a, b in zip(px, xs)) or \
                 len(py) != ny or not all(m.close(a * fu, b, scale=Wcm) for a, b in zip(py, ys)):
